@@ -287,6 +287,17 @@ Fixpoint run (c : cfg) (s : state) (ls : list label) : option state :=
   | l :: r => match step c s l with Some s' => run c s' r | None => None end
   end.
 
+(* ---------- the effective timeout of a call (TarsInvoke: "timeout delivery") ----------
+   timeout := proxy timeout; if the context carries a per-call timeout (current.SetClientTimeout) timeout := that one;
+   if the caller's context has a deadline, timeout := time.Until(deadline) and the context is used as it is; otherwise
+   context.WithTimeout(ctx, timeout) - with a timeout of zero or below the derived context has expired when it is made. *)
+Record tmo := mktmo {
+  t_proxy : Z (* ServantProxy.timeout, as set by TarsSetTimeout / the configuration *);
+  t_percall : option Z (* current.SetClientTimeout *);
+  t_ctx : option N (* time left until the deadline of the caller's context *) }.
+Definition configured (t : tmo) : Z := match t_percall t with Some p => p | None => t_proxy t end.
+Definition eff_of (t : tmo) : N := match t_ctx t with Some d => d | None => Z.to_N (configured t) end.
+
 (* ---------- canonical run of a fault script (used by the correspondence) ---------- *)
 Inductive connmode := CAccept | CRefuse | CStall | CAcceptClose | CNoRead
 | CNoReadEarly (t : N) (* never reads; t after accepting it sends a reply for every request id it expects *)
@@ -298,7 +309,7 @@ Definition early_pay : N := 3931302481.
 Record act := mkact { a_junk : bool; a_reply : option N; a_dup : bool; a_down : bool }.
 
 Record scen := mkscen {
-  sc_cfg : cfg; sc_conn : connmode; sc_acts : list act; sc_callers : nat; sc_calls : nat; sc_eff : N;
+  sc_cfg : cfg; sc_conn : connmode; sc_acts : list act; sc_callers : nat; sc_calls : nat; sc_tmo : tmo;
   sc_gaps : list N (* pause after the j-th call of a sequential caller; the last one repeats *);
   sc_oneway : bool;
   sc_cancel : option N (* the caller cancels its context this long after the start of the call *);
@@ -381,7 +392,7 @@ Definition due (now : N) (p : N * N * N) : bool := let '(t, _, _) := p in t <=? 
 (* one scheduling decision: the label to take and the new scheduler state *)
 Definition sched (sc : scen) (s : state) (e : env) : label * env :=
   let c := sc_cfg sc in
-  if want_start sc s then (Start (sc_eff sc) (sc_oneway sc), e) else
+  if want_start sc s then (Start (eff_of (sc_tmo sc)) (sc_oneway sc), e) else
   match e_down e with
   | S n => (if conn_open s then LConnDown else LPeerPkt 0 0, mkenv (e_pend e) n)
   | O =>
@@ -608,13 +619,13 @@ Definition model_held (sc : scen) : N :=
 
 (* ---------- a correspondence case ---------- *)
 Record c09case := mkcase {
-  cc_cfg : cfg; cc_conn : connmode; cc_acts : list act; cc_callers : nat; cc_calls : nat; cc_eff : N; cc_gaps : list N;
+  cc_cfg : cfg; cc_conn : connmode; cc_acts : list act; cc_callers : nat; cc_calls : nat; cc_tmo : tmo; cc_gaps : list N;
   cc_oneway : bool; cc_cancel : option N; cc_reject : nat; cc_prime : bool; cc_predict : bool;
   cc_conns : option N (* connections the peer accepted, where the script makes that number definite (idle periods) *);
   cc_held : option N (* largest number of reply receivers seen blocked at once, when sampled *); cc_obs : list (ocls * N); cc_events : list event; cc_final : N * N * N }.
 
 Definition c09_check (x : c09case) : bool :=
-  let sc := mkscen (cc_cfg x) (cc_conn x) (cc_acts x) (cc_callers x) (cc_calls x) (cc_eff x) (cc_gaps x) (cc_oneway x) (cc_cancel x) (cc_reject x) (cc_prime x) in
+  let sc := mkscen (cc_cfg x) (cc_conn x) (cc_acts x) (cc_callers x) (cc_calls x) (cc_tmo x) (cc_gaps x) (cc_oneway x) (cc_cancel x) (cc_reject x) (cc_prime x) in
   (if cc_predict x then predicted sc (cc_obs x) && model_trace_ok sc &&
                         match cc_held x with Some h => model_held sc <=? h | None => true end &&
                         match cc_conns x with Some n => (let '(s, _, _) := canonical sc in conns (tr s)) =? n | None => true end
